@@ -185,7 +185,12 @@ class World:
             if junk:
                 self.junk.append([object() for _ in range((junk * (i + 3)) % 11)])
             kind = spec["kind"]
-            if kind == "flag":
+            if kind == "flag" and self.scenario.get("share_conditions"):
+                # module-level flags used by several runs of one history
+                obj = SHARED_CONDITIONS.get(("flag", name))
+                if obj is None:
+                    obj = SHARED_CONDITIONS[("flag", name)] = Flag()
+            elif kind == "flag":
                 obj = Flag()               # flags with "init" are set by root() via the API
             elif kind == "tracked":
                 obj = Tracked(spec.get("init", 0))
